@@ -31,7 +31,8 @@ def gap_ok(gap, entries, lex, vmarks):
     def rec(pos, idx):
         if idx == len(entries):
             return pos == len(gap)
-        if rec(pos, idx + 1):
+        # an absent token may be replaced by nothing; an absent separator BETWEEN two items is owed (Walk.tla: DS)
+        if not entries[idx].startswith("DS") and rec(pos, idx + 1):
             return True
         for l in alts(entries[idx]):
             for sp in ("", " "):
